@@ -118,9 +118,11 @@ def _tokenrefs(repo, rep):
               where=L.where(f), detail=str([src(i) for i in ins]))
     if ok:
         arg = ins[0].args[1].args[0]
-        rep.check(src(arg) in ("string.strip()", "string"), "R12.1",
+        rep.check(src(arg) == "string.strip()", "R12.1",
                   f.qualname, "the reference is taken from the expression's "
-                  "own text", construct="tokenref-token", where=L.where(f),
+                  "own text, without the blanks around it (the reported "
+                  "column is that of the expression)",
+                  construct="tokenref-token", where=L.where(f),
                   detail=src(arg))
         guard = getattr(ins[0], "_parent", None)
         while guard is not None and not isinstance(guard, ast.If):
@@ -799,11 +801,18 @@ def _formatted(repo, rep):
         if isinstance(made, ast.Dict) else set()
     direct = [n for n in allocs if isinstance(n.func, ast.Attribute)
               and src(n.func.value) != "BaseException"]
+    # (the marker is a key only the classes made here have: not a name
+    # every class dictionary carries; and the allocator is the first such
+    # class's, taken with next() -- the bare generator is not callable)
+    own_keys = {k for k in keys if not (k.startswith("__") and
+                                        k.endswith("__"))}
     past = [v for v in alloc_names.values()
-            if "__mro__" in src(v) and any(
+            if "__mro__" in src(v) and isinstance(v, ast.Call) and
+            src(v.func) == "next" and any(
                 isinstance(c, ast.Compare) and
                 isinstance(c.ops[0], ast.NotIn) and
-                isinstance(c.left, ast.Constant) and c.left.value in keys
+                isinstance(c.left, ast.Constant) and
+                c.left.value in own_keys
                 and src(c.comparators[0]).endswith(".__dict__")
                 for c in ast.walk(v))]
     rep.check(not hides or (not direct and bool(past)), "R12.5", site,
